@@ -127,6 +127,10 @@ pub struct NLifetime {
     /// synthetic code pages are r-x again
     #[serde(default)]
     pub pre: Vec<String>,
+    /// the k-th mprotect made while the injector goes away is refused once (last lifetime only,
+    /// plain drop only, no function faked twice: see DESIGN 5.1, round 6, C01-f)
+    #[serde(default)]
+    pub exit_mprotect_fail: Option<u64>,
 }
 
 #[derive(Serialize, Deserialize, Clone, Debug, PartialEq)]
@@ -487,7 +491,17 @@ pub fn generate(profile: &str, seed: u64, index: u64) -> NScenario {
             pre.push("reprotect_text".into());
             classes.push("env-reprotect-text".into());
         }
-        lifetimes.push(NLifetime { ops, exit_panic, pre });
+        lifetimes.push(NLifetime { ops, exit_panic, pre, exit_mprotect_fail: None });
+    }
+    if let Some(last) = lifetimes.last_mut() {
+        let mut seen = std::collections::BTreeSet::new();
+        let installs: Vec<&NOp> = last.ops.iter().filter(|o| o.op == "install").collect();
+        let once = installs.iter().all(|o| seen.insert(o.target));
+        let plain = installs.iter().all(|o| o.fault.is_empty() && o.kind != "fakecounted");
+        if once && plain && !installs.is_empty() && !last.exit_panic && rng.chance(1, 8) {
+            last.exit_mprotect_fail = Some(rng.below(3));
+            classes.push("exit-mprotect-refused".into());
+        }
     }
     classes.sort();
     classes.dedup();
@@ -1026,6 +1040,15 @@ fn well_formed(sc: &NScenario) -> Result<(), String> {
     if sc.pitch < 16 && sc.prologues {
         return Err("prologues need 16-byte slots".into());
     }
+    for (li, lt) in sc.lifetimes.iter().enumerate() {
+        if lt.exit_mprotect_fail.is_some() {
+            let mut seen = std::collections::BTreeSet::new();
+            let once = lt.ops.iter().filter(|o| o.op == "install").all(|o| seen.insert(o.target));
+            if !once || li + 1 != sc.lifetimes.len() {
+                return Err("exit_mprotect_fail needs the last lifetime with every function faked at most once".into());
+            }
+        }
+    }
     for (i, (a, _)) in sc.funcs.iter().enumerate() {
         for (b, _) in &sc.funcs[i + 1..] {
             if (*a as i64 - *b as i64).unsigned_abs() < sc.pitch {
@@ -1130,6 +1153,10 @@ pub fn execute(sc: &NScenario, sh: &Shared) -> Value {
                 }
             }
         })));
+        let exit_fault = if lt.exit_panic || li + 1 != sc.lifetimes.len() { None } else { lt.exit_mprotect_fail };
+        if let Some(k) = exit_fault {
+            interpose::set_faults(Faults { mprotect_fail_after: k + 1, ..Default::default() });
+        }
         interpose::arm(true);
         let r = catch_unwind(AssertUnwindSafe(move || {
             let _inj = inj;
@@ -1139,6 +1166,8 @@ pub fn execute(sc: &NScenario, sh: &Shared) -> Value {
         }));
         interpose::arm(false);
         interpose::set_observer(None);
+        let exit_fault_fired = exit_fault.is_some() && interpose::faults().fired_mprotect > 0;
+        interpose::set_faults(Faults::default());
         run.calls += obs_n.get();
         if obs_n.get() > 0 {
             *run.probes.entry("calls_interleaved_with_restoration".into()).or_insert(0) += obs_n.get();
@@ -1149,6 +1178,45 @@ pub fn execute(sc: &NScenario, sh: &Shared) -> Value {
         let ledger = interpose::ledger_since(mark);
         if lt.exit_panic {
             *run.faults.entry("injected_panic_at_scope_exit".into()).or_insert(0) += 1;
+        }
+        if exit_fault_fired {
+            *run.faults.entry("mprotect_refused_during_restoration".into()).or_insert(0) += 1;
+            if let Err(p) = &r {
+                if panic_msg(p).to_lowercase().contains("protect") {
+                    // The OS refused part of the restoration and the library said so.  Nothing
+                    // claims it completes, but a function whose entry still carries the injector's
+                    // branch must still reach its fake: every function answers with its original
+                    // or with one of its fakes of this lifetime.  The scenario ends here.
+                    for ti in 0..sc.targets.len() {
+                        let mask = if sc.targets[ti].ret == "bool" { 0xFF } else { u32::MAX };
+                        let mut allowed: Vec<(u32, u32)> = vec![(run.target_orig(ti), mask)];
+                        for inst in &run.model[ti] {
+                            allowed.push(match inst {
+                                Inst::Val(v) => (*v, mask),
+                                Inst::Bool(b) => (*b as u32, 0xFF),
+                            });
+                        }
+                        let g = run.call_target(ti);
+                        run.calls += 1;
+                        if !allowed.iter().any(|(v, m)| g & m == v & m) {
+                            run.v("function-incoherent-after-refused-restoration", &["C01", "C02"], format!("lifetime {li}: after the restoration was refused, target #{ti} at {:#x} returned {:#x}; allowed (value, mask) {:x?}", run.target_addr(ti), g, allowed));
+                        }
+                    }
+                    sh.note(PH_DONE, 0, 0, 0);
+                    let (mm, mu, mp, fl) = interpose::counts();
+                    return json!({
+                        "violations": run.viol,
+                        "digest": format!("{:016x}", run.digest),
+                        "probes": run.probes,
+                        "faults": run.faults,
+                        "events": run.events + mm,
+                        "calls": run.calls,
+                        "installs_ok": run.installs_ok,
+                        "installs_refused": run.installs_refused,
+                        "os_calls": {"mmap": mm, "munmap": mu, "mprotect": mp, "flush": fl},
+                    });
+                }
+            }
         }
         match &r {
             Err(p) if p.is::<Injected>() => {}
